@@ -238,6 +238,35 @@ def check(ctx: Ctx) -> None:
                 arms = [(None, term)]
                 if len(term) == 1 and term[0][0] == "ALT":
                     arms = [(("if", term[0][1]), term[0][2]), (("ifnot", term[0][1]), term[0][3])]
+
+                def has_alt(tt):
+                    return any(isinstance(x, tuple) and x and (x[0] == "ALT" or any(isinstance(y, list) and has_alt(y) for y in x)) for x in tt)
+
+                def expand(tt, cap=16):
+                    """every way of resolving the conditionals left inside a writer term (also inside loop bodies): each is an encoding
+                    the writer can produce and must load back"""
+                    outs = [[]]
+                    for tok in tt:
+                        if isinstance(tok, tuple) and tok and tok[0] == "ALT":
+                            g0 = tok[1]
+                            skip_none = isinstance(g0, tuple) and g0[0] == "cond" and isinstance(g0[1], str)
+                            if skip_none and g0[1].endswith(" is not None") and tok[3] == []:
+                                # an item that is None is not written: the loader's NEWLIST pre-fills None (dump format, C12.c), so the value
+                                # round-trips all the same -- only the storing arm is an encoding to replay
+                                opts = expand(tok[2], cap)
+                            elif skip_none and g0[1].endswith(" is None") and tok[2] == []:
+                                opts = expand(tok[3], cap)
+                            else:
+                                opts = [x for arm_ in (tok[2], tok[3]) for x in expand(arm_, cap)]
+                        elif isinstance(tok, tuple) and any(isinstance(y, list) for y in tok):
+                            subs = [[y] if not isinstance(y, list) else expand(y, cap) for y in tok]
+                            import itertools as _it
+                            opts = [[tuple(c)] for c in _it.islice(_it.product(*subs), cap)]
+                        else:
+                            opts = [[tok]]
+                        outs = [o + x for o in outs for x in opts][:cap]
+                    return outs
+                arms = [(g_, a2) for (g_, a_) in arms for a2 in (expand(a_) if has_alt(a_) else [a_])]
                 for guard, arm in arms:
                     try:
                         res = rp.run(arm, [])
